@@ -7,6 +7,7 @@ package gen
 import (
 	"fmt"
 	"math/rand"
+	"regexp"
 	"sort"
 	"strings"
 )
@@ -65,6 +66,21 @@ type Func struct {
 	Tags  []string // construct families used
 	Exec  bool     // may be executed by the native oracle (deterministic, terminating)
 	Extra []string // names of further top-level funcs/methods declared in Text (e.g. "T3.M", "helper3")
+}
+
+var declRe = regexp.MustCompile(`(?m)^(?:func (?:\([^)]*\) )?|type )([A-Za-z_][A-Za-z0-9_]*)`)
+
+// DeclNames returns the names of the top-level functions, methods and types a group declares.
+func (f Func) DeclNames() []string {
+	var out []string
+	seen := map[string]bool{}
+	for _, m := range declRe.FindAllStringSubmatch(f.Text, -1) {
+		if !seen[m[1]] {
+			seen[m[1]] = true
+			out = append(out, m[1])
+		}
+	}
+	return out
 }
 
 type File struct {
